@@ -83,6 +83,9 @@ def check(ctx):
               "postponed commands are replayed before the finished system was re-inserted (they would be postponed again or discarded)")
     n = core.adopt(ctx, c02, lambda o: o["rule"] == "C02.c" and "::replay:" in o["key"], "C09.c")
     ctx.floor("C09.c", n, 4, "shared replay-closure obligations")
+    import c08
+    n = core.adopt(ctx, c08, lambda o: o["rule"] == "C08.e" and "runner:" in o["key"], "C09.c")
+    ctx.floor("C09.c", n, 2, "shared poll-position obligations (C08.e)")
     # ---- C09.d FIFO buffer ----
     n = core.adopt(ctx, c12, lambda o: o["rule"] in ("C12.b", "C12.c"), "C09.d")
     ctx.floor("C09.d", n, 8, "shared C12.b/c obligations")
